@@ -67,7 +67,7 @@ def assertion(B, out):
             parts.append((f"set of seed {s} contains {y} iff {y} is in the attractor of the seed",
                           B.Iff(B.And(B.attr(s), B.reach(s, y)), B.const(y in st))))
     fb = out.get("fallback")
-    if fb is not None and not nd["skipped"]:
+    if fb is not None:
         parts.append((f"fallback raised {fb['seeds']['exc']} / {fb['sets']['exc']}", B.const(fb["seeds"]["exc"] is None and fb["sets"]["exc"] is None)))
         if fb["seeds"]["exc"] is None and fb["sets"]["exc"] is None:
             fam1 = sorted(sorted(map(tuple, st)) for st in sets)
@@ -161,7 +161,11 @@ def tasks(tier, seed, selftest=False):
         add("D3", p, 15 if q else 900, fine=False, free=True)
         add("S1C2", p, 15 if q else 900, fine=False, free=True)
     for p in ((), ("succ",), ("seeds",)):
-        add("N3", p, 25 if q else 900)      # every variable in the NFVS: several candidates survive in minimal nodes
+        add("N3", p, 25 if q else 900)
+    # skip nodes that hold a motif-avoidant attractor, asked after other nodes were answered: default method and
+    # symbolic fallback must agree there too
+    for p in (("succ", "skiprem", "seeds"), ("succ", "skiprem")):
+        add("P:MAA3+SRC1", p, 25 if q else 900, fine=False)      # every variable in the NFVS: several candidates survive in minimal nodes
     for p in ((), ("succ",), ("cands",)):
         # decision points: the size heuristic's answer is substituted (always decline / always accept forward growth),
         # so the verdict on the reachability loop does not depend on AEON's BDD sizes
